@@ -516,6 +516,12 @@ func cmdCheck(args []string) int {
 			// parked in finished bubbles): says nothing about lal; the worker was restarted after that run
 			fmt.Fprintf(os.Stderr, "verifctl: note: the race detector runtime aborted at idx %d (ThreadSanitizer CHECK failed); run skipped\n", c.idx)
 			continue
+		} else if runtimeSignalAbort(c.log) {
+			// the Go runtime itself took a fatal signal on a system stack (seen rarely in the -race build inside
+			// runtime.(*timer).modify of a synctest bubble); a nil dereference in lal is a Go panic, not this. It says
+			// nothing about lal; the worker was restarted after that run
+			fmt.Fprintf(os.Stderr, "verifctl: note: the Go runtime aborted with a fatal signal at idx %d (no lal frame on the faulting stack); run skipped\n", c.idx)
+			continue
 		} else if !strings.Contains(c.log, "panic") && !strings.Contains(c.log, "fatal error") && !strings.HasPrefix(c.log, "STALL") {
 			harnessTrouble = append(harnessTrouble, fmt.Sprintf("worker died at idx %d without a Go panic:\n%s", c.idx, c.log))
 			continue
@@ -599,6 +605,27 @@ func cmdCheck(args []string) int {
 		return 2
 	}
 	return exit
+}
+
+// runtimeSignalAbort: the crash log is a raw fatal signal of the Go runtime ("SIGSEGV: segmentation violation" followed
+// by "PC=... m=... sigcode=...", not a Go panic and not a "fatal error:") and the faulting goroutine's stack holds no lal
+// or naza frame.
+func runtimeSignalAbort(log string) bool {
+	i := strings.Index(log, "SIGSEGV: segmentation violation\nPC=")
+	if i < 0 || strings.Contains(log[:i], "panic:") || strings.Contains(log[:i], "fatal error:") {
+		return false
+	}
+	rest := log[i:]
+	// the faulting goroutine is the first one printed with "[running"; its stack ends at the next blank line
+	j := strings.Index(rest, "[running")
+	if j < 0 {
+		return false
+	}
+	stack := rest[j:]
+	if e := strings.Index(stack, "\n\n"); e >= 0 {
+		stack = stack[:e]
+	}
+	return !strings.Contains(stack, "q191201771/lal/") && !strings.Contains(stack, "q191201771/naza/")
 }
 
 func envOr(k, d string) string {
